@@ -50,7 +50,8 @@ CONFIGS = {
     "default": ("gnu++17", [], STD_DRIVERS),
     "small": ("gnu++11",
               D(USE_DOUBLE=0, USE_LONG_LONG=0, SLOT_ID_SIZE=1,
-                STRING_LENGTH_SIZE=1, POOL_CAPACITY=16), STD_DRIVERS),
+                STRING_LENGTH_SIZE=1, POOL_CAPACITY=16, ENABLE_NAN=1),
+              STD_DRIVERS),
     "allon": ("gnu++17",
               D(ENABLE_COMMENTS=1, ENABLE_NAN=1, ENABLE_INFINITY=1,
                 SLOT_ID_SIZE=4, STRING_LENGTH_SIZE=4, AUTO_SHRINK=0,
@@ -59,7 +60,10 @@ CONFIGS = {
     # the four quick configurations cover all four combinations of
     # USE_DOUBLE x USE_LONG_LONG (default 1/1, small 0/0, allon 0/1,
     # arduino 1/0): both decide which storage kinds and extension slots exist
-    "arduino": ("gnu++17", ARDUINO_FLAGS + D(USE_LONG_LONG=0), ALL_DRIVERS),
+    # likewise ENABLE_NAN x ENABLE_INFINITY: default 0/0, allon 1/1, small 1/0,
+    # arduino 0/1
+    "arduino": ("gnu++17", ARDUINO_FLAGS + D(USE_LONG_LONG=0, ENABLE_INFINITY=1),
+                ALL_DRIVERS),
 }
 QUICK = ["default", "small", "allon", "arduino"]
 
